@@ -220,9 +220,10 @@ func propC03(c *Ctx) {
 	}
 	nDel := 0
 	for _, fn := range delFns {
+		freg := NewRegion(fn) // the statement may be issued by a helper only this function calls (rewind)
 		for i := range sites {
 			s := &sites[i]
-			if s.Fn != fn || s.Stmt == nil {
+			if !freg.Has(s.Fn) || s.Stmt == nil {
 				continue
 			}
 			for bi := range s.Stmt.Blocks {
@@ -244,7 +245,7 @@ func propC03(c *Ctx) {
 					}
 				}
 				ok := numConj != nil && numConj.Op == ">=" && numConj.Param > 0 && s.ArgsOK && numConj.Param <= len(s.Args) &&
-					numParam != nil && stripNum(s.Args[numConj.Param-1]) == numParam
+					numParam != nil && stripNum(freg.Resolve(stripNum(s.Args[numConj.Param-1]))) == ssa.Value(numParam)
 				detail := "where clause: " + fmt.Sprint(b.Where)
 				c.Check("R3.3", s.key()+"/number>=param", instrPos(s.Call), ok, "the delete removes every row at or above the divergent block ("+detail+")")
 				for _, col := range []string{"src_name", "ig_name"} {
@@ -272,8 +273,39 @@ func propC03(c *Ctx) {
 func checkFetchersValidate(c *Ctx, rule string) {
 	w := c.W
 	validate := w.Fn("jrpc2", "validate")
-	for _, name := range []string{"(*Client).blocks", "(*Client).headers"} {
-		fn := w.Fn("jrpc2", name)
+	// the getters Client.Get hands to the segment caches: the fetch methods themselves, or a wrapper
+	// around them (`validated("blocks", c.blocks)`); whatever is handed over may return blocks with a
+	// nil error only with validate's verdict on those very blocks
+	get := w.Fn("jrpc2", "(*Client).Get")
+	cget := w.Fn("jrpc2", "(*cache).get")
+	var getters []*ssa.Function
+	seenG := map[*ssa.Function]bool{}
+	nSites := 0
+	for _, ci := range NewRegion(get).Calls() {
+		if staticCallee(ci) != cget {
+			continue
+		}
+		for _, a := range ci.Common().Args {
+			if _, isFn := a.Type().Underlying().(*types.Signature); !isFn {
+				continue
+			}
+			gs := getterFuncs(a)
+			if len(gs) > 0 {
+				nSites++
+			}
+			for _, g := range gs {
+				if !seenG[g] {
+					seenG[g] = true
+					getters = append(getters, g)
+				}
+			}
+		}
+	}
+	if nSites < 2 {
+		c.Violation(rule, "Client.Get/getters", get.Pos(), fmt.Sprintf("expected the block and the header getter handed to the segment caches, resolved %d", nSites))
+	}
+	sortFuncs(getters)
+	for _, fn := range getters {
 		var pStart, pLimit *ssa.Parameter
 		for _, p := range fn.Params {
 			switch p.Name() {
@@ -293,10 +325,27 @@ func checkFetchersValidate(c *Ctx, rule string) {
 				continue // error return with nil slice
 			}
 			n++
-			call, ok := vals[1].(*ssa.Call)
-			good := ok && staticCallee(call) == validate && len(call.Call.Args) == 4 &&
-				sameVar(call.Call.Args[3], vals[0]) && call.Call.Args[1] == pStart && call.Call.Args[2] == pLimit
-			c.Check(rule, fmt.Sprintf("%s/return#%d", fnName(fn), n), instrPos(r), good, "a non-nil block slice is returned together with validate(caller, start, limit, that slice)")
+			good := false
+			isVerdict := func(call *ssa.Call) bool {
+				return staticCallee(call) == validate && len(call.Call.Args) == 4 &&
+					(sameVar(call.Call.Args[3], vals[0]) || call.Call.Args[3] == vals[0]) && call.Call.Args[1] == ssa.Value(pStart) && call.Call.Args[2] == ssa.Value(pLimit)
+			}
+			if call, ok := vals[1].(*ssa.Call); ok && isVerdict(call) {
+				good = true // return blocks, validate(…)
+			}
+			if !good {
+				// or: validate was called on these blocks and the return lies on its nil arm
+				for _, vc := range callsToFn(fn, validate) {
+					if !isVerdict(vc) {
+						continue
+					}
+					isNil, _ := nilTestEdges(vc)
+					if dominatesInstr(vc, r) && len(isNil) > 0 && guardedByEdges(fn, r, isNil) {
+						good = true
+					}
+				}
+			}
+			c.Check(rule, fmt.Sprintf("%s/return#%d", fnName(fn), n), instrPos(r), good, "a non-nil block slice is returned only with the verdict of validate(caller, start, limit, that slice)")
 		}
 		if n == 0 {
 			c.Violation(rule, fnName(fn)+"/returns", fn.Pos(), "no block-returning return found")
@@ -374,6 +423,12 @@ func checkValidate(c *Ctx, v *ssa.Function, rule string) {
 	// first / last
 	numOfElem := func(x ssa.Value, last bool) bool {
 		recv, ok := valueMethodArg(x, "eth", "Block", "Num")
+		if !ok {
+			// the number read from the header of an element (through a pointer to it)
+			if root, chain := fieldChain(x); chainIs(chain, c.W.Field("eth", "Block", "Header"), c.W.Field("eth", "Header", "Number")) {
+				recv, ok = root, true
+			}
+		}
 		if !ok {
 			// a local copy of the number
 			if u, isU := x.(*ssa.UnOp); isU {
@@ -521,7 +576,38 @@ func linkageEveryPair(c *Ctx, sp linkageSpec) (bool, string) {
 		}
 		return w, w.init != nil && w.next != nil
 	}
+	// a mismatch makes the function return a non-nil error: in the function of
+	// the comparison, and then at each call site up to the function
+	mismatchIsError := func(call *ssa.Call) bool {
+		_, f := boolEdges(call)
+		good := len(f) > 0
+		for _, e := range f {
+			ok := true
+			reach(Site{e.To, -1}, func(in ssa.Instruction) bool {
+				if r, isR := in.(*ssa.Return); isR {
+					vals := returnValues(r)
+					last := vals[len(vals)-1]
+					if !definitelyNonNilError(last, nil) {
+						ok = false
+					}
+				}
+				return false
+			}, nil)
+			if !ok {
+				good = false
+			}
+		}
+		ch := reg.chain(call)
+		for k := len(ch) - 2; k >= 0 && good; k-- {
+			hc, isCall := ch[k].(*ssa.Call)
+			if !isCall || !callErrorArmReturns(hc) {
+				good = false
+			}
+		}
+		return good
+	}
 	var linkOK bool
+	var undecided []*ssa.Call
 	linkDetail := "no comparison of a block's parent hash with the hash of the block before it found"
 	for _, ci := range reg.Calls() {
 		call, isCall := ci.(*ssa.Call)
@@ -571,6 +657,25 @@ func linkageEveryPair(c *Ctx, sp linkageSpec) (bool, string) {
 			}
 		}
 		if parentIdx == nil || hashIdx == nil {
+			// a parent hash is compared with a block hash, but which elements these are cannot be read
+			// (e.g. a walk that re-slices the sequence): not decided, provided a mismatch is an error
+			var hasParent, hasHash bool
+			for _, a := range call.Call.Args {
+				a = stripConv(a)
+				_, chain := fieldChain(a)
+				if len(chain) >= 2 && chain[len(chain)-2] == fHeader && chain[len(chain)-1] == fParent {
+					hasParent = true
+				}
+				if len(chain) >= 2 && chain[len(chain)-2] == fHeader && chain[len(chain)-1] == fHash {
+					hasHash = true
+				}
+				if _, ok := valueMethodArg(a, "eth", "Block", "Hash"); ok {
+					hasHash = true
+				}
+			}
+			if hasParent && hasHash {
+				undecided = append(undecided, call)
+			}
 			continue
 		}
 		pa, ha := aff.Of(parentIdx), aff.Of(hashIdx)
@@ -645,42 +750,23 @@ func linkageEveryPair(c *Ctx, sp linkageSpec) (bool, string) {
 		if !covered {
 			continue
 		}
-		// a mismatch makes the function return a non-nil error: in the function of
-		// the comparison, and then at each call site up to the function
-		_, f := boolEdges(call)
-		good := len(f) > 0
-		nonNilFrom := func(edges []Edge, known map[ssa.Value]bool) bool {
-			for _, e := range edges {
-				ok := true
-				reach(Site{e.To, -1}, func(in ssa.Instruction) bool {
-					if r, isR := in.(*ssa.Return); isR {
-						vals := returnValues(r)
-						last := vals[len(vals)-1]
-						if !definitelyNonNilError(last, known) {
-							ok = false
-						}
-					}
-					return false
-				}, nil)
-				if !ok {
-					return false
-				}
-			}
-			return len(edges) > 0
-		}
-		good = good && nonNilFrom(f, nil)
-		ch := reg.chain(call)
-		for k := len(ch) - 2; k >= 0 && good; k-- {
-			hc, isCall := ch[k].(*ssa.Call)
-			if !isCall || !callErrorArmReturns(hc) {
-				good = false
-			}
-		}
-		if good {
+		if mismatchIsError(call) {
 			linkOK = true
 		} else {
 			linkDetail = "a mismatching pair does not make the function return an error on every path"
 		}
+	}
+	if !linkOK && len(undecided) > 0 && linkDetail == "no comparison of a block's parent hash with the hash of the block before it found" {
+		all := true
+		for _, call := range undecided {
+			if !mismatchIsError(call) {
+				all = false
+			}
+		}
+		if all {
+			return true, "a parent hash is compared with a block hash and a mismatch is an error, but the elements compared cannot be read from the index forms (a walk that re-slices the sequence?): which pairs are covered is not decided"
+		}
+		linkDetail = "a mismatching pair does not make the function return an error on every path"
 	}
 	if linkOK {
 		linkDetail = "every adjacent pair (k, k+1), k = 0 … len-2, is compared and a mismatch is an error"
@@ -844,4 +930,45 @@ func absentEdges(f *ssa.Function, fHeader, fParent *types.Var) []Edge {
 	out = append(out, f1...)
 	out = append(out, t2...)
 	return out
+}
+
+// getterFuncs: the functions a getter value can be: a method value (c.blocks),
+// a function literal, or the function literal returned by a repo function that
+// wraps another getter (validated("blocks", c.blocks)).
+func getterFuncs(v ssa.Value) []*ssa.Function {
+	v = stripConv(v)
+	switch x := v.(type) {
+	case *ssa.MakeClosure:
+		f := x.Fn.(*ssa.Function)
+		if f.Synthetic != "" {
+			// bound method wrapper: the method it calls
+			var out []*ssa.Function
+			for _, ci := range callsIn(f) {
+				if cal := staticCallee(ci); cal != nil && cal.Blocks != nil {
+					out = append(out, cal)
+				}
+			}
+			return out
+		}
+		return []*ssa.Function{f}
+	case *ssa.Function:
+		return []*ssa.Function{x}
+	case *ssa.Call:
+		cal := staticCallee(x)
+		if cal == nil || cal.Blocks == nil || !isRepoFunc(cal) {
+			return nil
+		}
+		var out []*ssa.Function
+		for _, r := range returnsOf(cal) {
+			for _, rv := range returnValues(r) {
+				if _, isFn := rv.Type().Underlying().(*types.Signature); isFn {
+					if _, isCall := stripConv(rv).(*ssa.Call); !isCall {
+						out = append(out, getterFuncs(rv)...)
+					}
+				}
+			}
+		}
+		return out
+	}
+	return nil
 }
